@@ -2,7 +2,7 @@ import BoxoModel.C12.Model
 /-! Line-protocol driver for C12 (merkledag walks). Ops:
 
   node <idx> <ok|nf|er> <link idx…>          getLinks answer for CID <idx> (idx = number of nodes so far)
-  walk <root> <lim> <conc> <skipRoot 0|1> <provider 0|1> <handlers,|->
+  walk <root> <lim> <conc> <skipRoot 0|1> <provider 0|1|1:failing cids,> <handlers,|->
         handlers: ie IgnoreErrors, im IgnoreMissing, om OnMissing, oe0/oe1/oe2 OnError (pass / swallow / replace)
         conc <= 1: sequential walk, outputs are the exact call sequences;
         conc  > 1: parallel walk, outputs are schedule-independent sets (or `err=yes` when the walk aborts)
@@ -65,7 +65,12 @@ def step (d : DS) (line : String) : DS × String :=
     match root.toNat?, lim.toInt?, conc.toInt?, parseHs hs with
     | some root, some lim, some conc, some hs =>
       let g := mkGraph d
-      let cfg : Cfg := { skipRoot := skip == "1", provider := prov == "1", handlers := hs, lim := lim }
+      -- prov = 0 | 1 | 1:<cids for which StartProviding fails>
+      let pf : List Nat := match prov.splitOn ":" with
+        | [_, l] => (l.splitOn ",").filterMap String.toNat?
+        | _ => []
+      let cfg : Cfg := { skipRoot := skip == "1", provider := prov.startsWith "1", handlers := hs, lim := lim,
+                         provFail := fun c => pf.contains c }
       let n : Nat := if conc == 0 then 32 else conc.toNat   -- 0 = the Concurrent() option
       if n ≤ 1 then
         let r := seqWalk g cfg fuelMax root 0 {}
